@@ -15,7 +15,8 @@ HOSTILE_TZIDS = ["America", "../../etc/passwd", "/etc/passwd", "a" * 300, "", "E
                  "Europe/Berlin/", "europe/berlin", "Zulu", "America/Argentina", "x" * 5000, "퟿",
                  "Asia/Kolkata ", " ", "~", "right/UTC", "tzdata.zi", "zone.tab", "Factory", "SystemV/AST4"]
 HOSTILE_OFFSETS = ["+2500", "-0000", "+ab12", "+010", "+01000000", "", "+9999", "-2359", "+235959", "0100", "+24"]
-HOSTILE_DATES = ["20200101/20200102", "20200101/P1D", "20200101/20200102T000000Z", "20200101T000000Z/20200102",
+HOSTILE_DATES = ["20230105T101500Z/202301", "120000/133000", "202301/20230105T101500Z", "20230105T101500Z/1230000",
+                 "20200101/20200102", "20200101/P1D", "20200101/20200102T000000Z", "20200101T000000Z/20200102",
                  "99991231T235959Z/PT1H", "99991231T235959Z/P1D", "00010101T000000Z/-P1D", "99991231T235959/PT1S",
                  "20200101T000000Z/P999999999D", "99991231", "00010101", "99991231T235959", "00010101T000000",
                  "00000000", "20200230", "99991231T235959Z", "2020-03-10", "20200310T250000", "10000101T000000",
